@@ -23,8 +23,8 @@ func init() {
 		Floors: []report.Floor{
 			{Rule: "cb-guard", What: "calls", Min: 4}, {Rule: "error-forwarding", What: "report-origins", Min: 4},
 			{Rule: "cb-guard", What: "field-stores", Min: 3},
-			{Rule: "callback-plumbing", What: "config-args", Min: 4},
-			{Rule: "callback-plumbing", What: "ctor-stores", Min: 3},
+			{Rule: "callback-plumbing", What: "config-args", Min: 2},
+			{Rule: "callback-plumbing", What: "ctor-stores", Min: 2},
 			{Rule: "callback-noninterference", What: "uses", Min: 10},
 			{Rule: "error-forwarding", What: "calls", Min: 3},
 			{Rule: "root-only-on-accept", What: "assignments", Min: 4},
